@@ -583,6 +583,11 @@ func (c *StructCode) Filter(query *FieldQuery) Code {
 		}
 		if len(query.Fields) > 0 {
 			fieldCode.value = fieldCode.value.Filter(query)
+			if structCode := fieldCode.getAnonymousStruct(); structCode != nil && !structCode.isRecursive && len(structCode.fields) == 0 {
+				// an embedded struct none of whose members is selected promotes nothing
+				// (the compiler drops an embedded struct without members the same way)
+				continue
+			}
 		}
 		fields = append(fields, fieldCode)
 	}
